@@ -75,8 +75,9 @@ class ConstrainedProblem(Problem):
         return np.concatenate([orig_grad, np.zeros((num_slacks,))])
 
     def cons(self, x):
-        # Copy in order not to modify the values returned by the underlying problem
-        orig_cons = np.copy(self.problem.cons(self.orig_vals(x)))
+        # Copy in order not to modify the values returned by the underlying problem,
+        # conversion in order not to apply offsets / slacks in a narrower dtype
+        orig_cons = np.array(self.problem.cons(self.orig_vals(x)), dtype=float)
 
         num_slacks = len(self.slack_positions)
 
